@@ -1379,6 +1379,7 @@ func (a *Agent) ManageRoute(action, network string, metric uint16) (*health.Rout
 			return nil, err
 		}
 
+		verifhook.At("agent.ManageRoute.add.between")
 		a.ensureExitHandler().AddAllowedRoute(ipNet)
 		a.TriggerRouteAdvertise()
 
@@ -1397,6 +1398,7 @@ func (a *Agent) ManageRoute(action, network string, metric uint16) (*health.Rout
 			return nil, err
 		}
 
+		verifhook.At("agent.ManageRoute.remove.between")
 		if a.exitHandler != nil {
 			a.exitHandler.RemoveAllowedRoute(ipNet)
 		}
